@@ -3,6 +3,7 @@
 import functools
 import inspect
 import textwrap
+import types
 from collections.abc import MutableMapping, MutableSequence, MutableSet
 from typing import Any, Callable, Iterable, Optional
 
@@ -489,6 +490,9 @@ class DeepCopyMethod(MethodDescriptor):
         new = self.__class__.__new__(self.__class__)
         for attr, value in self.__dict__.items():
             if inspect.ismethod(value) and value.__self__ is self:
+                # A method of the instance itself: the copy gets the same
+                # method bound to the copy (deep-copying it would recurse).
+                new.__dict__[attr] = types.MethodType(value.__func__, new)
                 continue
             attr_spec = self.__spec_class__.attrs.get(attr)
             if attr_spec and attr_spec.do_not_copy:
